@@ -27,3 +27,7 @@ def check(ctx, env):
     R.r5_3_retransmit(ctx, prog)
     R.r5_4_who_may_write(ctx, prog)
     R.r12_3_indication(ctx, prog, rule="R5.5")
+    # "never again emits a timer for it": the timer heap's remove really drops every entry of the id, check pops what
+    # it returns, add pushes what it is given (same rule as C11 R11.4)
+    from . import codec_rules as K
+    K.r11_4_pairing(ctx, prog, rule="R5.6")
